@@ -1,8 +1,13 @@
 package server
 
 import (
+	"encoding/binary"
 	"errors"
+	"io"
 
+	"github.com/IrineSistiana/mosdns/v5/pkg/dnsutils"
+	"github.com/IrineSistiana/mosdns/v5/pkg/pool"
+	"github.com/miekg/dns"
 	"go.uber.org/zap"
 )
 
@@ -14,3 +19,35 @@ var (
 var (
 	nopLogger = zap.NewNop()
 )
+
+var errSectionCount = errors.New("section counts in the header do not match the msg")
+
+// unpackQuery unpacks the query msg b.
+// dns.Msg.Unpack accepts a msg whose header announces more entries than the
+// msg carries (it corrects the counts silently). Such a msg is malformed,
+// unpackQuery refuses it.
+func unpackQuery(b []byte) (*dns.Msg, error) {
+	m := new(dns.Msg)
+	if err := m.Unpack(b); err != nil {
+		return nil, err
+	}
+	// Note: Unpack succeeded, b has a header.
+	if int(binary.BigEndian.Uint16(b[4:])) != len(m.Question) ||
+		int(binary.BigEndian.Uint16(b[6:])) != len(m.Answer) ||
+		int(binary.BigEndian.Uint16(b[8:])) != len(m.Ns) ||
+		int(binary.BigEndian.Uint16(b[10:])) != len(m.Extra) {
+		return nil, errSectionCount
+	}
+	return m, nil
+}
+
+// readQueryFromStream reads a query msg from c in RFC 1035 format (msg is
+// prefixed with a two byte length field).
+func readQueryFromStream(c io.Reader) (*dns.Msg, error) {
+	b, err := dnsutils.ReadRawMsgFromTCP(c)
+	if err != nil {
+		return nil, err
+	}
+	defer pool.ReleaseBuf(b)
+	return unpackQuery(*b)
+}
